@@ -53,6 +53,7 @@ def d_hostile(g, tier):
     ops = []
     for i in range(40 if tier == "quick" else 400):
         ops += gen.hostile_templates_session(g)
+    ops += gen.many_templates_session(g, 1100 if tier == "quick" else 4000)
     return ops
 
 
@@ -139,7 +140,7 @@ PROP_DRIVERS = {
     "C03": ["corpus", "conformant", "protocols", "truncate"],
     "C04": ["corpus", "conformant", "protocols"],
     "C05": ["corpus", "conformant"],
-    "C06": ["corpus", "conformant", "mutate", "rounds"],
+    "C06": ["corpus", "conformant", "mutate", "rounds", "hostile"],
     "C07": ["corpus", "conformant", "mutate"],
     "C08": ["corpus", "conformant", "mutate", "struct", "protocols"],
     "C09": ["corpus", "conformant", "mutate"],
